@@ -72,9 +72,11 @@ void TcpRpc::Impl::cleanup()
 
 bool TcpRpc::Impl::send(const SessionToken &st, const std::string &str)
 {
-    auto ct = session_to_client_.at(st);
-    if (st.isNull())
+    //! 会话可能已经结束（比如命令里调用了 endSession() 之后又来了 exit），不能用 at()，否则异常会抛进 Loop
+    auto iter = session_to_client_.find(st);
+    if (iter == session_to_client_.end())
         return false;
+    auto ct = iter->second;
 
     send(ct, str.c_str(), str.size());
     return true;
@@ -82,9 +84,11 @@ bool TcpRpc::Impl::send(const SessionToken &st, const std::string &str)
 
 bool TcpRpc::Impl::send(const SessionToken &st, char ch)
 {
-    auto ct = session_to_client_.at(st);
-    if (st.isNull())
+    //! 会话可能已经结束（比如命令里调用了 endSession() 之后又来了 exit），不能用 at()，否则异常会抛进 Loop
+    auto iter = session_to_client_.find(st);
+    if (iter == session_to_client_.end())
         return false;
+    auto ct = iter->second;
 
     send(ct, &ch, 1);
     return true;
@@ -92,7 +96,10 @@ bool TcpRpc::Impl::send(const SessionToken &st, char ch)
 
 bool TcpRpc::Impl::endSession(const SessionToken &st)
 {
-    auto ct = session_to_client_.at(st);
+    auto iter = session_to_client_.find(st);
+    if (iter == session_to_client_.end())
+        return false;
+    auto ct = iter->second;
     if (ct.isNull())
         return false;
 
